@@ -1,4 +1,4 @@
-HOOK_COMMITS = ["5f3d420"]
+HOOK_COMMITS = ["5f3d420", "2632a98"]
 NOT_BUILT_REASON = {}
 META = {
     "C19": {
@@ -64,7 +64,7 @@ META = {
     "C15": {
         "technique": "property-based testing of operation histories on the event bus with an interval (linearisation-window) oracle and a deadlock watchdog",
         "design_ref": "DESIGN.md §4 C15",
-        "level_text": "Histories of subscribe/unsubscribe/publish with re-entrant handlers and parallel publishers are judged per (handler, event) pair from start/end stamps: exactly once when subscribed throughout, never when unsubscribed throughout, at most once when overlapping. Core-before-application ordering is observed through the stamps of the peer's capture writer. Exploration; schedules are whatever the Go scheduler produces.",
+        "level_text": "Histories of subscribe/unsubscribe/publish with re-entrant handlers and parallel publishers are judged per (handler, event) pair from start/end stamps: exactly once when subscribed throughout, never when unsubscribed throughout, at most once when overlapping. Core-before-application ordering is observed through the stamps of the peer's capture writer, and directly with harness handlers subscribed on both levels through the build-tag hook spine.VerifSubscribe (a subscription is a (level, handler) pair: one delivery per level in force, core ones on the publishing goroutine and first). Exploration; schedules are whatever the Go scheduler produces.",
         "level_note": "Trusted: one atomic stamp counter orders the log. Publishing from inside a core-level handler is not exercised (only the stack's own handler runs there).",
     },
     "C20": {
